@@ -88,6 +88,10 @@ P_C11_DisabledNotConsulted == (IsObs /\ RulesApply /\ RulesMode = "disabled" /\ 
                           ((o.relayed \/ o.upstreamClosed) /\ o.failedDelta = 0)
 P_C11_DenialCountedOnce == (IsObs /\ ~Unspecified /\ Reached /\ RulesDeny) => (o.failedDelta = 1 /\ o.failedKeyOk)
 
+\* the summary is what the agent PUBLISHES: after each denial has been answered, the status file written next carries it
+\* (event {"e":"pub","denials":n,"inFile":m}: n denials answered so far, m occurrences in the status file read afterwards)
+P_C11_PublishedInStatusFile == (o.e = "pub") => (o.inFile = o.denials)
+
 \* --- C15 ------------------------------------------------------------------------------------
 \* (when the policy lookup fails as well, C01's 500 for that failure may come first: the body is never read)
 P_C15_OverRefused == (IsObs /\ Over) => /\ ~o.relayed /\ o.strayBytes = 0
